@@ -8,6 +8,7 @@ import ZnVerif.Ops.C12
 import ZnVerif.Ops.C17
 import ZnVerif.Ops.C06
 import ZnVerif.Ops.C19
+import ZnVerif.Ops.C14
 
 open ZnVerif.Ops
 
@@ -18,7 +19,8 @@ def handlers : List (String → List String → Option String) := [
   C12.handle,
   C17.handle,
   C06.handle,
-  C19.handle
+  C19.handle,
+  C14.handle
 ]
 
 def dispatch (op : String) (args : List String) : String :=
